@@ -23,7 +23,7 @@ def install():
         return
     orig = vf.run
 
-    def run(cmd, timeout):
+    def run(cmd, timeout, *args, **kwargs):
         if cmd and cmd[0] == 'cbmc':
             with _lock:                     # one starter at a time, so that a burst does not pass the gate together
                 t0 = time.time()
@@ -31,6 +31,6 @@ def install():
                     time.sleep(3)
                 if _avail_gb() < 32:
                     time.sleep(5)           # a solver grows after its start: space the starts out while memory is tight
-        return orig(cmd, timeout)
+        return orig(cmd, timeout, *args, **kwargs)
     vf.run = run
     vf._throttled = True
